@@ -551,14 +551,27 @@ acquire_start(struct AcquireRuntime* self_)
     self->state = DeviceState_Running;
     return AcquireStatus_Ok;
 Error:
+    // Streams that were started before the failure have live workers, and
+    // those own the devices until they are joined: wind them down as an abort
+    // does instead of stopping cameras under them.
     for (int i = 0; i < countof(self->video); ++i) {
         if (((self->valid_video_streams >> i) & 1) == 0) {
             TRACE("(Abort) Skipping disabled video stream %d", i);
             continue;
         }
         struct video_s* video = self->video + i;
-        camera_stop(video->source.camera);
+        video->source.is_stopping = 1;
+        channel_accept_writes(&video->sink.in, 0);
+        camera_execute_trigger(video->source.camera);
+        if (!video->source.is_running) {
+            // No source thread will stop this stream's camera, filter and
+            // sink: do it here.
+            camera_stop(video->source.camera);
+            video->filter.is_stopping = 1;
+            video->sink.is_stopping = 1;
+        }
     }
+    acquire_stop(self_);
     self->state = DeviceState_AwaitingConfiguration;
     return AcquireStatus_Error;
 }
